@@ -243,7 +243,10 @@ fn gen_corpus_vec(seed: u64, tier: Tier) -> Scenario {
     gen::gen_corpus(seed, &gen::CorpusCfg { max_docs: docs(tier), with_vec: true, with_images: false, mutate: true })
 }
 fn gen_corpus_img(seed: u64, tier: Tier) -> Scenario {
-    gen::gen_corpus(seed, &gen::CorpusCfg { max_docs: docs(tier) / 2, with_vec: false, with_images: true, mutate: true })
+    // one seed in four builds a larger corpus (sorting and merging code behaves differently above a
+    // few dozen entries), with the same small pool of timestamps, i.e. many ties
+    let big = seed % 4 == 3;
+    gen::gen_corpus(seed, &gen::CorpusCfg { max_docs: if big { docs(tier) * 2 } else { docs(tier) / 2 }, with_vec: false, with_images: true, mutate: true })
 }
 
 fn gen_vacuum(seed: u64, tier: Tier) -> Scenario {
@@ -485,7 +488,7 @@ pub fn quick_runs(id: &str) -> u64 {
         "C06" | "C07" => 240,
         "C08" | "C10" | "C28" => 130,
         "C09" | "C11" | "C13" | "C14" | "C16" => 140,
-        "C15" => 160,
+        "C15" => 120,
         "C17" => 160,
         "C18" => 260,
         "C19" => 300,
